@@ -14,8 +14,11 @@
   3. the Go harness builds every case as a real chart and observes the REAL code: Release.Manifest / Hooks /
      Info.Notes of a dry-run install (also with IncludeCRDs) and engine.Render, N times sequentially with
      the chart re-loaded before every render from shuffled in-memory files, from its directory and from its
-     archive, M times concurrently, and in child processes with another environment, working directory and
-     other contents of the files outside the chart; schema outcome while the canary file changes;
+     archive, M times concurrently, in child processes with another environment, working directory and
+     other contents of the files outside the chart; R more renders that REUSE one loaded chart object
+     (sequential installs, concurrent engine.Render); one install through a Configuration with a cluster
+     connection (RESTClientGetter + real kube.Client over the simulated API server, --dry-run=server);
+     schema outcome while the canary file changes;
   4. verdict: RenderObs.tla -- all observations of a case identical and equal to F(case); env / expandenv are
      parse errors; files outside the chart and DNS (unless enabled) yield nothing; schema outcome constant.
 """
@@ -24,14 +27,16 @@ import vlib, renderlib as rl
 from vlib import Inconclusive, log
 
 TIERS = {
-    "quick": dict(gen="MC_RenderGen_c05.cfg", gen_timeout=600, mc_workers=5, n=9, m=4, children=2,
+    "quick": dict(gen="MC_RenderGen_c05.cfg", gen_timeout=600, mc_workers=5, n=9, m=4, children=2, reuse=4,
                   part_gen="MC_RenderGen_c05part.cfg", part_n=3),
-    "thorough": dict(gen="MC_RenderGen_c05_thorough.cfg", gen_timeout=1800, mc_workers=8, n=50, m=16, children=2,
+    "thorough": dict(gen="MC_RenderGen_c05_thorough.cfg", gen_timeout=1800, mc_workers=8, n=50, m=16, children=2, reuse=12,
                      part_gen="MC_RenderGen_c05part_thorough.cfg", part_n=8),
 }
-ARGS = lambda t: ["-n", str(t["n"]), "-m", str(t["m"]), "-disk", "-engine", "-crds", "-children", str(t["children"])]
+ARGS = lambda t: ["-n", str(t["n"]), "-m", str(t["m"]), "-disk", "-engine", "-crds", "-children", str(t["children"]),
+                  "-reuse", str(t["reuse"]), "-route"]
+REPLAY_ARGS = ["-n", "30", "-m", "8", "-disk", "-engine", "-crds", "-children", "2", "-reuse", "8", "-route"]
 
-KF_OF_MODEL = {"DetNotes": "KF-L8-notes-map-order", "DetCrds": "KF-L21-crd-order", "DetSchema": "KF-L8-schema-ref-reads-host-files"}
+KF_OF_MODEL = {"DetSchema": "KF-L8-schema-ref-reads-host-files"}
 
 
 def run(pid, tier, seed, replay_path=None):
@@ -46,7 +51,7 @@ def run(pid, tier, seed, replay_path=None):
     if replay_path:
         rp = json.load(open(replay_path))
         names, known, obs = rl.replay_render(hv, d, rp["case"], rp.get("seed", 1),
-                                             ["-n", "30", "-m", "8", "-disk", "-engine", "-crds", "-children", "2"], "C05_")
+                                             REPLAY_ARGS, "C05_")
         bad = sorted(set(names) | {n for n, k in known if k not in listed})
         for n, k in sorted(set(known)):
             if k in listed:
@@ -84,7 +89,7 @@ def run(pid, tier, seed, replay_path=None):
     h1 = rl.harness(hv, ["render", "-in", os.path.join(d, "cases_c05.ndjson"), "-out", obsf, "-seed", str(seed)] + ARGS(t), 5400)
     pobsf = os.path.join(d, "obs_part.ndjson")
     h2 = rl.harness(hv, ["render", "-in", os.path.join(d, "cases_c08.ndjson"), "-out", pobsf, "-seed", str(seed),
-                         "-n", str(t["part_n"]), "-m", "2", "-engine", "-children", "1"], 5400)
+                         "-n", str(t["part_n"]), "-m", "2", "-engine", "-children", "1", "-reuse", "2", "-route"], 5400)
     th.join()
     if "err" in box:
         raise box["err"]
@@ -150,7 +155,7 @@ def run(pid, tier, seed, replay_path=None):
     for idx, name, kf in cand:
         groups.setdefault((name, kf), []).append(idx)
     reported, unrepro = [], []
-    replay_args = ["-n", "30", "-m", "8", "-disk", "-engine", "-crds", "-children", "2"]
+    replay_args = REPLAY_ARGS
     for (name, kf), idxs in sorted(groups.items()):
         for idx in sorted(idxs, key=size)[:3]:
             o = obs_at(idx)
